@@ -242,6 +242,7 @@ def generate(R, tier, focus):
     n_ops = R.randint(1, 7) if not thorough else R.randint(1, 14)
     ops = []
     templates = []
+    matrix_scaled = set()
     for _ in range(n_ops):
         x = R.random()
         if templates and x < 0.3:
@@ -260,10 +261,14 @@ def generate(R, tier, focus):
         which = 'B' if wB is not None and R.random() < 0.4 else 'A'
         if x < 0.52:
             # another component uses the same forecast object between evaluations
-            what = R.choice(('T', 'T_scaled', 'TARGET_scaled', 'N', 'READS', 'SCALE', 'SCALE'))
+            what = R.choice(('T', 'T_scaled', 'TARGET_scaled', 'N', 'READS', 'SCALE', 'SCALE', 'SCALE'))
             o = {'op': 'OTHER', 'what': what, 'fc': which, 'obs': R.randrange(len(obs))}
             if what == 'SCALE':
                 o['v'] = R.choice((1, 0.5, 2, 3.25, 0.1, 1.0))
+                if R.random() < 0.5:
+                    # per-cell factors (an ndarray of shape (cells, 1)): unlike a scalar they change the sampling weights
+                    o['v'] = [R.choice((0.5, 1.0, 2.0, 3.25)) for _ in range(nc)]
+                    matrix_scaled.add(which)
                 templates = []          # results before and after a re-scaling are different functions
             ops.append(o)
             continue
@@ -288,6 +293,8 @@ def generate(R, tier, focus):
             npos_t = int((flat_rates(test, rates_w) > 0).sum())
             if n_active > npos_t:
                 continue        # no valid simulated catalog exists: property vacuous
+            if which in matrix_scaled and (wide or expected_draws(test, rates_w, n_active, nsim) >= 3000):
+                continue        # rows prepared for the unscaled weights would not fit the re-weighted forecast
             if wide or expected_draws(test, rates_w, n_active, nsim) >= 30000:
                 # legitimately long coupon-collector loop: drive the simulation through random_numbers=
                 rows = inject_rows_for(R, test, rates_w, n_active, nsim)
@@ -331,6 +338,25 @@ def generate(R, tier, focus):
             templates.append(op)
     world.update({'engine': 'rngsim', 'obs': obs, 'cf': cf, 'ops': ops, 'tz': R.choice(TZ_CHOICES),
                   'initial_rng': R.randint(0, 2 ** 31 - 1)})
+    # the forecast arrives as a forecast file (cells in world order) instead of as an in-memory array
+    world['delivery'] = 'file' if (not quad and not world.get('alt_mags') and R.random() < 0.15) else 'memory'
+    # the observed catalog object has a history: it was larger (events outside the region / below the magnitude range),
+    # was summarised, and was then cut down in place to exactly the events listed in obs
+    if not quad and R.random() < 0.25:
+        extra = []
+        for k in range(R.randint(1, 3)):
+            ev = gen.gen_event(R, region, mags, eid='x%d' % k, start_ms=world['start_ms'], end_ms=world['end_ms'])[0]
+            p_out = gen.point_outside(R, region)
+            if p_out is not None and R.random() < 0.6:
+                ev[3], ev[2] = p_out
+                ev.append('outside')
+            else:
+                ev[5] = gen.dec(mags['edges'][0] - mags['dm'] * R.choice((0.5, 1.0, 2.5)), 6)
+                ev.append('low')
+            extra.append(ev)
+        world['obs_history'] = {'extra': extra, 'warm': R.sample(['magnitude_counts', 'get_magnitudes', 'n_events', 'bbox'],
+                                                                  R.randint(0, 3)),
+                                'update_stats': R.random() < 0.5}
     return world
 
 
@@ -612,20 +638,46 @@ def _execute(scn, ctx, rng, collect_results):
     elif scn.get('alt_mags'):
         worlds['B'] = alt_world(scn)
         ctx.count('cfg:second_forecast_with_other_magnitude_bins')
-    fcs = {k: build.make_gridded(w) for k, w in worlds.items()}
+    store = None
+    if scn.get('delivery') == 'file' and scn['region']['kind'] == 'cart':
+        from ..seams import SimStore
+        store = SimStore()
+        ctx.count('cfg:forecast_delivered_as_file')
+        try:
+            fcs = {k: build.load_world_dat(store.path('world_%s.dat' % k), w) for k, w in worlds.items()}
+        finally:
+            store.cleanup()
+    else:
+        fcs = {k: build.make_gridded(w) for k, w in worlds.items()}
     factor = {k: 1 for k in worlds}
     shared_cats = {}
 
     def cur_rates(k):
         f = factor[k]
+        if isinstance(f, list):
+            return [[v * f[i] for v in row] for i, row in enumerate(worlds[k]['rates'])]
         return [[v * f for v in row] for row in worlds[k]['rates']]
 
     def obs_catalog(oi_, k):
         # one catalog object per observed catalog, re-bound to the region of the forecast it is evaluated against
         c = shared_cats.get(oi_)
         if c is None:
-            c = build.make_catalog(scn['obs'][oi_]['events'], region=fcs[k].region, name=None if scn.get('unnamed') else 'obs',
+            hist = scn.get('obs_history')
+            evs_ = list(scn['obs'][oi_]['events'])
+            if hist:
+                for j_, e_ in enumerate(hist['extra']):
+                    evs_.insert(min(len(evs_), 2 * j_), e_[:6])
+            c = build.make_catalog(evs_, region=fcs[k].region, name=None if scn.get('unnamed') else 'obs',
                                    as_array=(scn.get('initial_rng', 0) + oi_) % 3 == 0)
+            if hist:
+                ctx.count('cfg:observed_catalog_with_history')
+                for w_ in hist['warm']:
+                    call({'magnitude_counts': lambda: c.magnitude_counts(), 'get_magnitudes': lambda: c.get_magnitudes(),
+                          'n_events': lambda: c.get_number_of_events(), 'bbox': lambda: c.get_bbox()}[w_])
+                if any(e_[6] == 'low' for e_ in hist['extra']):
+                    c.filter('magnitude >= %r' % worlds[k]['mags']['edges'][0], in_place=True)
+                if any(e_[6] == 'outside' for e_ in hist['extra']):
+                    c.filter_spatial(fcs[k].region, update_stats=hist['update_stats'], in_place=True)
             shared_cats[oi_] = c
         c.region = fcs[k].region
         return c
@@ -670,7 +722,8 @@ def _execute(scn, ctx, rng, collect_results):
             cat = obs_catalog(op['obs'], which)
             rng.mark(budget=HARD_CAP)
             if what == 'SCALE':
-                r = call(fc.scale, op['v'])
+                v_ = op['v']
+                r = call(fc.scale, numpy.array(v_, dtype=float).reshape(-1, 1) if isinstance(v_, list) else v_)
                 if r[0] == 'ok':
                     factor[which] = op['v']
                     rates = cur_rates(which)
